@@ -25,16 +25,16 @@ type Violation struct {
 
 type Rec struct {
 	mu           sync.Mutex
-	Property     string           `json:"property"`
-	Config       string           `json:"config"`
-	Shard        string           `json:"shard"`
-	Seed         int64            `json:"seed"`
-	Evaluations  int64            `json:"evaluations"`
-	Classes      map[string]int64 `json:"classes"`
-	Samples      []interface{}    `json:"samples"`
-	Violations   []Violation      `json:"violations"`
-	NViolations  int64            `json:"n_violations"`
-	Inconclusive []string         `json:"inconclusive"`
+	Property     string                 `json:"property"`
+	Config       string                 `json:"config"`
+	Shard        string                 `json:"shard"`
+	Seed         int64                  `json:"seed"`
+	Evaluations  int64                  `json:"evaluations"`
+	Classes      map[string]int64       `json:"classes"`
+	Samples      []interface{}          `json:"samples"`
+	Violations   []Violation            `json:"violations"`
+	NViolations  int64                  `json:"n_violations"`
+	Inconclusive []string               `json:"inconclusive"`
 	Extra        map[string]interface{} `json:"extra"`
 	distinct     map[uint64]struct{}
 	maxSamples   int
